@@ -559,6 +559,7 @@ func init() {
 			penvBefore := fmt.Sprint(penv)
 			base, cs, bad := c14payload(c, key)
 			if bad != "" {
+				oracleFail("C14", "step-rejected", sx.A(fmt.Sprint(i)), "a generated, well-formed command step cannot be loaded or signed: "+bad)
 				stat("C14", "skipped-"+bad[:12])
 				continue
 			}
